@@ -76,7 +76,11 @@ def run(ctx):
     # the answer depends on the current records only if the versioned containers mask, restore and roll back correctly
     import c09
     c09.rule_ver(ctx, F)
+    c09.rule_get(ctx, F)
     c09.rule_rbk(ctx, F)
+    c09.rule_drop(ctx, F)    # an abandoned writer leaves nothing behind
+    rule_emptyset(ctx, F)
+    rule_inzone(ctx, F)
 
 
 def _one(F, rx):
@@ -586,3 +590,43 @@ def rule_mark(ctx, F):
                        "arm is not restricted to `None` / `Some(NxDomain)`): storing an RRset at the owner of a zone cut or a CNAME "
                        "wipes that marker, and the delegation is answered authoritatively instead of with a referral",
                        b.where(bi), detail="variant facts: %s" % sorted(kinds))
+
+
+def rule_emptyset(ctx, F):
+    """An RRset without records is no RRset: NodeRrsets::update with an empty RRset removes the type (the removal leaves
+    a marker for held readers), it does not store the empty set -- a stored empty set makes the name look like it owns
+    the type, no NXDOMAIN marker is computed and the negative answer goes out without SOA."""
+    R = "C08.emptyset"
+    ctx.floor(R, 1)
+    b = F.one_body(r"^zonetree::in_memory::nodes::NodeRrsets::update$")
+    if not ctx.anchor(R, "NodeRrsets::update", b):
+        return
+    stores = [bb for bb, t in b.calls() if re.search(r"versioned::Versioned::<.*>::update$|nodes::NodeRrset::update$", t["fn"] or "")]
+    removes = [bb for bb, t in b.calls() if re.search(r"NodeRrsets::remove_rtype$|Versioned::<.*>::remove$", t["fn"] or "")]
+    if not ctx.anchor(R, "the store (Versioned::update) in NodeRrsets::update", len(stores) >= 1, b.where()):
+        return
+    for sb in stores:
+        nonempty = any(("is_empty(" in show(tm) and v is False) for tm, v in bool_facts(b, sb, F))
+        ctx.ob(R, b, "only a non-empty RRset is stored", nonempty and bool(removes),
+               "NodeRrsets::update stores the RRset without having found it non-empty (and %s): replacing an RRset by an empty one "
+               "leaves an empty set in place -- the name answers NOERROR without SOA instead of NXDOMAIN / NODATA with it"
+               % ("removes the type otherwise" if removes else "never removes the type"), b.where(sb))
+
+
+def rule_inzone(ctx, F):
+    """Whether a name lies in the zone is decided label by label with Label's own equality (ASCII case-insensitive), like
+    the lookups below the apex: util::rel_name_rev_iter compares the apex labels as `Label`s, never as raw octets."""
+    R = "C08.inzone"
+    ctx.floor(R, 1)
+    b = F.one_body(r"^zonetree::util::rel_name_rev_iter(::<.*>)?$")
+    if not ctx.anchor(R, "zonetree::util::rel_name_rev_iter", b):
+        return
+    cmps = [(bb, t) for bb, t in b.calls() if re.search(r"PartialEq(<.*>)?::(eq|ne)$", t["fn"] or "")]
+    if not ctx.anchor(R, "label comparison in rel_name_rev_iter", len(cmps) >= 1, b.where()):
+        return
+    for bb, t in cmps:
+        tys = " ".join(t["targs"] or [])
+        ok = "name::label::Label" in tys and "[u8]" not in tys
+        ctx.ob(R, b, "apex labels are compared as labels", ok,
+               "rel_name_rev_iter compares %s: octet-wise comparison is case-sensitive, so `www.EXAMPLE.` is out of zone for the "
+               "apex `example.` although every lookup below the apex ignores case" % (tys[:120] or "?"), b.where(bb))
